@@ -50,7 +50,7 @@ type Options struct {
 	Workers int // 0 = NumCPU
 	// MaxExecs caps executions per scenario (0 = none); hitting it marks the run incomplete.
 	MaxExecs int
-	// NoUnlockPoints keeps the thorough tier from turning lock releases into scheduling points everywhere.
+	// NoUnlockPoints keeps lock releases from being scheduling points in every scenario.
 	NoUnlockPoints bool
 	// NoDeepen switches off the thorough tier's use of left-over budget for deeper bounds.
 	NoDeepen bool
@@ -307,8 +307,10 @@ func Explore(r *eng.Run, scs []*Scenario, opt Options) {
 	if nw == 0 {
 		nw = runtime.NumCPU()
 	}
-	if r.Thorough() && !opt.NoUnlockPoints {
-		// thorough: lock releases are scheduling points in every scenario
+	if !opt.NoUnlockPoints {
+		// lock releases are scheduling points in every scenario (both tiers): a
+		// native, un-rewritten state change right after an Unlock (context
+		// cancel, a plain field) is otherwise a window no other thread can enter
 		vsched.ForceUnlockPoints(true)
 	}
 	r.Set("unlock_points_everywhere", vsched.UnlockPointsForced())
